@@ -873,6 +873,12 @@ func hubOracles(hr *hubRun, cs hubCase, o *gen.Oracle) []h.Violation {
 				}
 			}
 			for _, lc := range hr.conns[1:] {
+				if sidOf[lc.label] == "" {
+					// the connection ended within its own registration (its replay overflowed its buffer): it was
+					// gone from the index before the harness could learn its subscriber id — its events cannot be
+					// attributed, the "never more ends than starts" clauses above still cover them
+					continue
+				}
 				mult := map[string]int{}
 				for _, t := range subs[lc.label].sels {
 					mult[t]++
